@@ -12,7 +12,7 @@ from vf.util import first_diff, md_blank, minimize_text, src_lines, stream
 
 LEVEL = "exploration"
 RULE = (
-    "cases = (configuration, A, B) with A, B tab-free newline-terminated documents from W-gram/W-soup/W-corpus/W-lines and chains "
+    "cases = (configuration, A, B) with A, B tab-free newline-terminated documents from W-gram/W-soup/W-corpus/W-lines, a battery of blocks directly followed by context-sensitive lines, and chains "
     "A=A1+A2+..; side conditions decided behaviourally as the statement phrases them: A is closed iff parse(A+'\\nzzz\\n') = "
     "parse(A) ++ shifted paragraph; B starts in column 0; seam not list+list / code+code. Oracle: block tokens and inline content "
     "(children excluded) of A+'\\n'+B equal those of A followed by those of B with maps shifted. Non-trivial = admissible pair where "
